@@ -411,6 +411,44 @@ static void do_iniset(const char *ops, char place) {
 	xb_free(&out); ini_destroy(ini);
 }
 
+/* container growth: parse a text of n lines, then add `nsets` new keys to a new section "g" (each
+ * ini_val_set goes through realloc_items once or twice), then regenerate into exactly the reported size */
+static void do_inigrow(const char *hex, size_t nsets, char place) {
+	xb_t in, out; xb_hex(&in, hex, place, "in");
+	ini_p ini = NULL; size_t need = NOREP, wr = NOREP; int rc = 0, rp, rg;
+	ini_create(&ini);
+	rp = ini_buf_parse(ini, in.p, in.n);
+	xb_free(&in);
+	for (size_t i = 0; i < nsets; i++) {
+		char kn[16]; snprintf(kn, sizeof(kn), "k%03zu", i);
+		xb_t bs, bk, bv; xb_alloc(&bs, 1, place, "sect"); bs.p[0] = 'g';
+		xb_alloc(&bk, 4, place, "key"); memcpy(bk.p, kn, 4);
+		xb_alloc(&bv, 1, place, "val"); bv.p[0] = 'v';
+		rc |= ini_val_set(ini, bs.p, bs.n, bk.p, bk.n, bv.p, bv.n);
+		const uint8_t *gv = NULL; size_t gs = NOREP;
+		if (0 != ini_val_get(ini, bs.p, bs.n, bk.p, bk.n, &gv, &gs) || gs != 1 || gv[0] != 'v') rc |= 0x1000;
+		xb_free(&bv); xb_free(&bk); xb_free(&bs);
+	}
+	ini_buf_calc_size(ini, &need);
+	xb_alloc(&out, need, place, "out");
+	rg = need ? ini_buf_gen(ini, out.p, need, &wr) : 0;
+	if (!need) wr = 0;
+	printf("inigrow rc=%d n=%zd need=%zu gen=%d parse=%d\n", rc, (ssize_t)wr, need, rg, rp);
+	xb_free(&out); ini_destroy(ini);
+}
+/* realloc_items as its callers use it: ask for room for element `count`, then store that element */
+static void do_ritems(size_t item_size, size_t blk, size_t n) {
+	void *items = NULL; size_t allocated = 0, bad = 0; int rc = 0;
+	for (size_t count = 0; count < n && rc == 0; count++) {
+		rc = realloc_items(&items, item_size, &allocated, blk, count);
+		if (rc != 0) break;
+		if (allocated <= count || allocated > count + blk) bad++;
+		else memset((uint8_t*)items + count * item_size, 0x5a, item_size); /* the caller's store */
+	}
+	printf("ritems rc=%d n=%zu bad=%zu\n", rc, allocated, bad);
+	free(items);
+}
+
 /* ------------------------------------------------------------------ mem_* helpers */
 static long idx(const void *p, const xb_t *b) { return p ? (long)((const uint8_t*)p - b->p) : -1; }
 static void do_mem(const char *hhex, const char *nhex, size_t off, char place) {
@@ -480,6 +518,8 @@ static void run_case(char **tok, int nt) {
 	else if (!strcmp(op, "sptab")) do_sptab(ARG(2), pl);
 	else if (!strcmp(op, "ini")) do_ini(ARG(2), NUM(3), pl);
 	else if (!strcmp(op, "iniset")) do_iniset(ARG(2), pl);
+	else if (!strcmp(op, "inigrow")) do_inigrow(ARG(2), NUM(3), pl);
+	else if (!strcmp(op, "ritems")) do_ritems(NUM(2), NUM(3), NUM(4));
 	else if (!strcmp(op, "mem")) do_mem(ARG(2), ARG(3), NUM(4), pl);
 	else if (!strcmp(op, "mfs")) do_mfs(&tok[2], nt - 2, pl);
 	else if (!strcmp(op, "crc")) do_crc(ARG(2), pl);
